@@ -86,7 +86,7 @@ class RefResult:
 
 class Interp:
     def __init__(self, prog, argv, W, checked=True, max_nodes=400_000,
-                 stack_bytes=None):
+                 stack_bytes=None, max_total_nodes=2_000_000):
         self.prog = prog
         self.argv = list(argv)
         self.W = W
@@ -96,6 +96,8 @@ class Interp:
         self.checked = checked
         self.typer = Typer(prog)
         self.max_nodes = max_nodes
+        self.max_total_nodes = max_total_nodes
+        self.total_nodes = 0
         self.stack_bytes = stack_bytes
         self.max_signed = self.signbit - 1
         self.decisions = []
@@ -176,7 +178,8 @@ class Interp:
 
     def tick(self):
         self.nodes += 1
-        if self.nodes > self.max_nodes:
+        self.total_nodes += 1
+        if self.nodes > self.max_nodes or self.total_nodes > self.max_total_nodes:
             raise _Abort(BUDGET, 'reference interpreter node budget')
 
     def choose(self, kind):
